@@ -227,6 +227,8 @@ class Model:
     def apply(self, op, U: Universe) -> str:
         """Returns 'ok' or 'reject' (the call must raise)."""
         k = op[0]
+        if k.endswith("_kw"):
+            k = k[:-3]  # the keyword form of a call builds what the positional form builds
         if k == "add_node":
             self._node(op[1])
         elif k == "add_nodes":
